@@ -16,13 +16,18 @@ std=17; extra=""
 grep -q "coroutine\|co_await\|co_return" $out/demo.cpp && std=20 && extra="-fcoroutines"
 grep -q "gtest" $out/demo.cpp && extra="$extra -lgtest -lgtest_main"
 bdir=$wt/_build
+# demos of coroutine / fiber properties link against the library-only builds the agents made
+if grep -q "_build_fc" $out/README.md && [ -d $wt/_build_fc ]; then bdir=$wt/_build_fc; std=20; extra="-fcoroutines $extra"; fi
+if grep -q "_build_co" $out/README.md && [ -d $wt/_build_co ] && ! grep -q "_build_fc/src" $out/README.md; then bdir=$wt/_build_co; std=20; extra="-fcoroutines $extra"; fi
+if [ -n "${SEED_BDIR:-}" ]; then bdir=$wt/$SEED_BDIR; std=20; extra="-fcoroutines $extra"; fi
 build_and_demo() {
+  cmake --build $wt/_build > /tmp/seed_build0.log 2>&1
   cmake --build $bdir > /tmp/seed_build.log 2>&1 || { echo "BUILD FAILED"; tail -5 /tmp/seed_build.log; return 99; }
   g++ -std=c++$std -O2 -I$wt/include -I$bdir/include $out/demo.cpp $bdir/src/libyaclib.a -pthread $extra -o /tmp/seed_demo_bin > /tmp/seed_demo_cc.log 2>&1 || { echo "DEMO COMPILE FAILED"; tail -5 /tmp/seed_demo_cc.log; return 98; }
   timeout 300 /tmp/seed_demo_bin > /tmp/seed_demo_run.log 2>&1; return $?
 }
 build_and_demo; rc_with=$?
-ctest --test-dir $bdir -j8 --timeout 900 > /tmp/seed_ctest.log 2>&1; rc_ctest=$?
+ctest --test-dir $wt/_build -j8 --timeout 900 > /tmp/seed_ctest.log 2>&1; rc_ctest=$?
 ctest_line=$(grep "tests passed" /tmp/seed_ctest.log)
 git apply -R $out/patch.diff
 build_and_demo; rc_without=$?
